@@ -165,6 +165,10 @@ class DocGen:
                 out.append(self.note_ref(depth))
             elif r < 0.92 and self.p("p_comment") and not self.in_comment:
                 out.append(self.comment_ref(depth))
+            elif r < 0.92 and self.in_comment and self.comments and self.rng.random() < self.pf.get("p_comment_in_comment", 0.0):
+                # a comment body that refers to a comment (itself or an earlier one): reply threads; F12
+                out.append(el("w:commentReference", [("w:id", str(self.rng.randrange(len(self.comments))))]))
+                self.hit("comment-in-comment")
             elif r < 0.96 and self.p("p_image"):
                 out.append(self.drawing())
             elif r < 0.98 and self.p("p_textbox") and depth < self.pf["max_depth"]:
